@@ -144,6 +144,59 @@ Section Lemmas.
     rewrite IH. reflexivity.
   Qed.
 
+  (* the item loop of [EGenCall] as a top-level function *)
+  Fixpoint gen_loop (f : string) (elt : expr) (x : string) (names : list string) (cond : expr) (l : list val)
+      (st : state) {struct l} : outcome val :=
+    match l with
+    | [] => gen_finish f st
+    | i :: r =>
+        bind (bind_item x names i st) (fun _ st' =>
+          bind (eval ext cond st') (fun c st2 =>
+            if truthy c
+            then bind (eval ext elt st2) (fun y st3 =>
+                   match gen_step f y with
+                   | GStop w => Ok w st3
+                   | GNext => gen_loop f elt x names cond r st3
+                   | GStuck w => Stuck w
+                   end)
+            else gen_loop f elt x names cond r st2))
+    end.
+
+  Lemma eval_gencall f elt x names it cond st :
+    eval ext (EGenCall f elt x names it cond) st =
+    bind (eval ext it st) (fun v st1 =>
+      match (if foreign v then None else container_items v) with
+      | None => Stuck "generator over a non-container"
+      | Some items =>
+          bind (gen_loop f elt x names cond items st1) (fun w st2 =>
+            Ok w (restore_vars (x :: names) (vars st1) st2))
+      end).
+  Proof.
+    cbn [eval]. destruct (eval ext it st) as [v st1|n st1|w]; cbn [bind]; try reflexivity.
+    destruct (if foreign v then None else container_items v) as [items|]; [|reflexivity].
+    f_equal. generalize st1. induction items as [|i r IH]; intros st0; [reflexivity|].
+    cbn [gen_loop]. destruct (bind_item x names i st0) as [u st'|n st'|w]; cbn [bind]; try reflexivity.
+    destruct (eval ext cond st') as [c st2|n st2|w]; cbn [bind]; try reflexivity.
+    destruct (truthy c); [|apply IH].
+    destruct (eval ext elt st2) as [y st3|n st3|w]; cbn [bind]; try reflexivity.
+    destruct (gen_step f y); try reflexivity. apply IH.
+  Qed.
+
+  Lemma exec_with e x body st :
+    exec ext (SWith e x body) st =
+    bind (eval ext e st) (fun m st1 =>
+      bind (ext "$enter" [m] [] st1) (fun v st2 =>
+        let cur st3 := match lookup x (vars st3) with Some w => w | None => VNone end in
+        match exec ext body (set_var x v st2) with
+        | Ok c st3 => bind (ext "$exit" [m; cur st3; VNone] [] st3) (fun _ st4 => Ok c st4)
+        | Exc n st3 =>
+            if internal_exc n then Stuck "control signal through a with block"
+            else bind (ext "$exit" [m; cur st3; VStr n] [] st3) (fun r st4 =>
+                   if truthy r then Ok CNormal st4 else Exc n st4)
+        | Stuck w => Stuck w
+        end)).
+  Proof. reflexivity. Qed.
+
   Lemma exec_seq a b st :
     exec ext (SSeq a b) st =
     bind (exec ext a st) (fun c st1 => match c with CNormal => exec ext b st1 | CReturn v => Ok c st1 end).
